@@ -1,7 +1,8 @@
 (* C03 -- Range headers resolve as RFC 7233 prescribes.
    This file only states the property theorems and closes each with a lemma proved in
    Proofs/; `Check` pins every statement, `Print Assumptions` shows what each rests on. *)
-From HS Require Import Lib.Base Lib.Bytes Lib.Dec Model.Range Spec.RangeGrammar Proofs.RangeP.
+From Coq Require Import String.
+From HS Require Import Lib.Base Lib.Bytes Lib.Dec Model.Range Model.Body Model.Serve Spec.RangeGrammar Proofs.RangeP Proofs.BodyP Proofs.ServeP Proofs.ServeProps Proofs.DecisionP.
 
 (* Every grammatical byte-range-set -- any number of specs of the three forms, optional
    whitespace after commas (and before the first element), leading zeros, all numbers
@@ -32,6 +33,49 @@ Theorem c03_ranges_within_entity : forall h L l, range_parse h L = RSat l ->
   l <> [] /\ Forall (fun p => fst p < snd p /\ snd p <= L) l.
 Proof. exact range_parse_sat_wf. Qed.
 
+(* Dispatch, for a GET/HEAD request carrying only a Range header, any entity length < 2^64:
+   ignored -> complete 200 without Content-Range; nothing satisfiable -> 416 with bytes */L;
+   one range -> 206 of exactly that range; several -> multipart 206 of exactly those ranges in
+   request order iff the 80-byte-per-part estimate is below L (413 iff the true multipart length
+   then reaches 2^64), else a complete 200. Hence: never multipart when the ranges alone total L
+   or more (est_sum >= their total), always multipart-or-413 when the estimate is below L. *)
+Theorem c03_dispatch : forall fmt_date parse_date now ent req r,
+  e_len ent < U64 -> is_get_or_head req -> only_range req ->
+  ~ In H_CONTENT_RANGE (map fst (e_hdrs ent)) ->
+  serve_model fmt_date parse_date now ent req = Ok r ->
+  match range_parse (r_range req) (e_len ent) with
+  | RNone => status r = 200 /\ values H_CONTENT_RANGE (hdrs r) = [] /\
+             (r_meth req = GET -> rplan r = PlExact 0 (e_len ent))
+  | RNotSat => status r = 416 /\ rplan r = PlOnce None /\
+               hdrs r = h0_of fmt_date now ent ++ [(H_CONTENT_RANGE, bs "bytes */" ++ dec (e_len ent))]
+  | RSat [(a, e)] => status r = 206 /\ (r_meth req = GET -> rplan r = PlExact a e) /\
+               In (H_CONTENT_RANGE, content_range_value a e (e_len ent)) (hdrs r)
+  | RSat rs =>
+      (est_sum rs < e_len ent ->
+         (status r = 206 /\ In (H_CONTENT_TYPE, V_MULTIPART) (hdrs r) /\
+          (r_meth req = GET -> exists ph total, rplan r = PlMulti ph rs total))
+         \/ (status r = 413 /\ U64 <= tail_len (map (hdr_of (e_len ent) (each_part_headers (e_hdrs ent))) rs) rs + TRAILER_LEN))
+      /\ (e_len ent <= est_sum rs -> status r = 200 /\ (r_meth req = GET -> rplan r = PlExact 0 (e_len ent)))
+  end.
+Proof. exact range_dispatch. Qed.
+
+(* the estimate is at least the ranges' total, so "ranges alone total L or more" implies "estimate >= L" *)
+Theorem c03_estimate_covers_total : forall rs, Forall (fun p => fst p <= snd p) rs ->
+  fold_right (fun p acc => (snd p - fst p) + acc) 0 rs <= est_sum rs.
+Proof.
+  induction rs as [|[a e] t IH]; intros HF; cbn [fold_right est_sum fst snd]; [lia|].
+  inversion HF; subst. specialize (IH H2). lia.
+Qed.
+
+(* The pinned tree: a suffix of zero selected an empty range; a suffix >= L was unsatisfiable;
+   a leading '+' was accepted; last-byte-pos u64::MAX overflowed. *)
+Example c03_legacy_refuted :
+  range_elem_legacy 10 (bs "-0") = LPush (10, 10) /\ range_elem 10 (bs "-0") = ESkip /\
+  range_elem_legacy 10 (bs "-10") = LSkip /\ range_elem 10 (bs "-10") = EPush (0, 10) /\
+  range_elem_legacy 10 (bs "+1-2") = LPush (1, 3) /\ range_elem 10 (bs "+1-2") = EBad /\
+  range_elem_legacy 10 (bs "0-18446744073709551615") = LPanic /\ range_elem 10 (bs "0-18446744073709551615") = EPush (0, 10).
+Proof. vm_compute. repeat split; reflexivity. Qed.
+
 (* non-vacuity: a concrete grammatical header meets the hypotheses of c03_parse *)
 Example c03_parse_instance :
   range_parse (Some (bytes_eq_prefix ++ render_set [] (FromTo [48] [49]) [([32], Suffix [53])])) 10
@@ -49,3 +93,5 @@ Print Assumptions c03_parse.
 Print Assumptions c03_overflow_ignored.
 Print Assumptions c03_ignore.
 Print Assumptions c03_ranges_within_entity.
+Print Assumptions c03_dispatch.
+Print Assumptions c03_estimate_covers_total.
